@@ -19,6 +19,15 @@ def conc_member(instrs):
     return f'{c05.TYPE_ATTRS} struct S {{ {" ".join(attrs)} a: V }}'
 
 
+PF_NAMES = {"owned_into", "ref_into", "into", "from_owned", "from_ref", "from", "map_owned", "map_ref", "map", "owned_into_existing", "ref_into_existing", "into_existing"}
+
+
+def conc_pfield(instrs):
+    """the same instruction lists in the third place member instructions can stand: in front of a child field of a parameterised #[parent(..)]"""
+    attrs = " ".join(f'[{x["n"]}(mk{x["id"]}, tg{x["id"]}(~))]' for x in instrs)
+    return f'#[map(A)] #[into_existing(A)] struct S {{ #[parent({attrs} b1, b2)] base: Base, a: V }}'
+
+
 def run(tier, seed):
     ctx = core.Ctx("C12", tier, seed, LEVEL)
     trace, srcs = [], {}
@@ -35,6 +44,8 @@ def run(tier, seed):
                     inp.append({"id": f"{mode}:{i}:{dt}", "srcs": [c04.concretize({"ts": c["s"]}, dt), c04.concretize({"ts": c["s2"]}, dt)]})
             else:
                 inp.append({"id": f"{mode}:{i}", "srcs": [conc_member(c["s"]), conc_member(c["s2"])]})
+                if all(x["n"] in PF_NAMES and x["cp"] == "-" for x in c["s"]):
+                    inp.append({"id": f"pfield:{i}", "srcs": [conc_pfield(c["s"]), conc_pfield(c["s2"])]})
         res = core.project(core.expand(inp, "syn1"))
         for x, rr in zip(inp, res):
             srcs[x["id"]] = x["srcs"]
@@ -56,11 +67,11 @@ def run(tier, seed):
         ctx.violation({"stream": stream, "enum": is_enum, "ghosts_instr": "ghosts" in src}, m["symptom"], {"srcs": srcs[m["id"]]})
     ctx.cov["evaluations"] = len(trace)
     ctx.cov["traces_validated_against_impl"] = ok
-    ctx.cov["pairs_by_stream"] = {k: sum(1 for t in trace if t["id"].startswith(k)) for k in ("type", "member", "rw")}
+    ctx.cov["pairs_by_stream"] = {k: sum(1 for t in trace if t["id"].startswith(k)) for k in ("type", "member", "pfield", "rw")}
     ctx.cov["accepted_pairs"] = sum(1 for t in trace if t["v1"] == "ok")
     ctx.cov["distinct_nontrivial"] = len({json.dumps(srcs[t["id"]]) for t in trace})
     ctx.cov["rule"] = ("TLC enumerates instruction lists (type level: trait instructions over 24 names x 2 counterparts; member level: 24 member-instruction names x "
-                       "{default, A, B}) and each shortcut occurrence to write out (one at a time and all at once), proves the write-out theorem on the specification "
+                       "{default, A, B}; the lists over the 12 names a parameterised #[parent(..)] accepts are also written in front of a parent child field) and each shortcut occurrence to write out (one at a time and all at once), proves the write-out theorem on the specification "
                        "(same impl bag / same effective instruction for every conversion) and the real derive expands both forms: equal multisets of impl token "
                        "strings, same verdict, same diagnostics modulo the instruction name they quote; plus a syn-level write-out of every repository input and of "
                        "arm-coverage inputs.  Non-trivial: the written-out form differs from the input.")
